@@ -1225,9 +1225,8 @@ Print Assumptions C08_std_contain_file_rel_any.
 (* 11.6 the Standard-side containment law for FILE bases with NO premise on the base path: every file base record
    (spec_valid, not opaque) and every reference whose cleaned text is empty, '?'-led, '#'-led, led by exactly one '/' or
    '\', or scheme-less with a first character outside '/', '\', '?', '#' and not starting with a Windows drive letter.
-   Outside: a reference with a scheme, two leading slash characters (the authority is the reference's), a reference
-   starting with a Windows drive letter ("C:/x", "C|": the Standard's file state takes neither host nor path of the base;
-   the host of the result is then the empty host) *)
+   Outside: a reference with a scheme, two leading slash characters (the authority is the reference's), a scheme-less
+   reference starting with a Windows drive letter ("C|/y"): 11.7, and all of them together: 11.8 *)
 Theorem C08_std_contain_file_any : forall shp input sb, spec_valid sb -> has_opaque_path sb = false ->
   list_eqb (su_scheme sb) str_file = true -> std_file_any_pre (spec_clean input) = true ->
   exists su, spec_basic_url_parse shp input (Some sb) = BDone su /\ spec_same_front sb su.
@@ -1251,3 +1250,62 @@ Example C08_std_contain_file_any_inhabited :
   /\ std_fs_any_case (B "file://h.x/tmp/d?q") [(B "", B "file://h.x/tmp/d?q"); (B "?x", B "file://h.x/tmp/d?x");
        (B "#f", B "file://h.x/tmp/d?q#f"); (B "/p", B "file://h.x/p"); (B "\p", B "file://h.x/p"); (B "e/f", B "file://h.x/tmp/e/f")] = true.
 Proof. exact std_contain_file_any_inhabited. Qed.
+
+(* 11.7 a scheme-less reference that starts with a Windows drive letter ("C|/y"; with ':' the letter is a scheme) against
+   a file base: the Standard's file state takes the host of the base and the EMPTY path - the host is KEPT (parser.rs
+   drops it: the drive-letter branches of parse_file, F-C08-1) *)
+Theorem C08_std_contain_file_drive : forall shp input sb, spec_valid sb -> has_opaque_path sb = false ->
+  list_eqb (su_scheme sb) str_file = true -> spec_scheme (spec_clean input) = None ->
+  starts_with_windows_drive_letter (spec_clean input) = true ->
+  exists su, spec_basic_url_parse shp input (Some sb) = BDone su /\ spec_same_front sb su
+    /\ su = file_tail (fkeep sb []) (spath_f (spec_clean input) [] []).
+Proof. exact std_contain_file_drive. Qed.
+Print Assumptions C08_std_contain_file_drive.
+
+(* 11.8 the Standard-side containment law for FILE bases in full: the premise of 8.2 (reference without scheme and
+   without two leading slash characters, '\' counting) and nothing else - no premise on the base path, no drive-letter
+   exclusion on the reference *)
+Theorem C08_std_contain_file_full : forall shp input sb, spec_valid sb -> has_opaque_path sb = false ->
+  list_eqb (su_scheme sb) str_file = true -> std_contain_pre sb (spec_clean input) = true ->
+  exists su, spec_basic_url_parse shp input (Some sb) = BDone su /\ spec_same_front sb su.
+Proof. exact std_contain_file_full. Qed.
+Check C08_std_contain_file_full : forall shp input sb, spec_valid sb -> has_opaque_path sb = false ->
+  list_eqb (su_scheme sb) str_file = true ->
+  (negb (has_scheme_b (spec_clean input))
+   && negb (two_leading_slashes (is_special_scheme (su_scheme sb)) (spec_clean input))) = true ->
+  exists su, spec_basic_url_parse shp input (Some sb) = BDone su
+    /\ su_scheme su = su_scheme sb /\ su_username su = su_username sb /\ su_password su = su_password sb
+    /\ su_host su = su_host sb /\ su_port su = su_port sb.
+Print Assumptions C08_std_contain_file_full.
+
+(* 11.9 = 8.2 without its premise on the scheme: the Standard-side containment law for EVERY base record that is not
+   opaque.  Reference without scheme and without two leading slash characters ('\' counting only when the base's scheme
+   is special): the Standard never fails and scheme, username, password, host and port of the result are the base's -
+   for every host parser *)
+Theorem C08_std_contain_every : forall shp input sb, spec_valid sb -> has_opaque_path sb = false ->
+  std_contain_pre sb (spec_clean input) = true ->
+  exists su, spec_basic_url_parse shp input (Some sb) = BDone su /\ spec_same_front sb su.
+Proof. exact std_contain_every. Qed.
+Check C08_std_contain_every : forall shp input sb,
+  ((has_opaque_path sb = true -> su_host sb = None /\ su_username sb = [] /\ su_password sb = [] /\ su_port sb = None)
+   /\ (su_scheme sb = str_file -> su_username sb = [] /\ su_password sb = [] /\ su_port sb = None)) ->
+  has_opaque_path sb = false ->
+  (negb (has_scheme_b (spec_clean input))
+   && negb (two_leading_slashes (is_special_scheme (su_scheme sb)) (spec_clean input))) = true ->
+  exists su, spec_basic_url_parse shp input (Some sb) = BDone su
+    /\ su_scheme su = su_scheme sb /\ su_username su = su_username sb /\ su_password su = su_password sb
+    /\ su_host su = su_host sb /\ su_port su = su_port sb.
+Print Assumptions C08_std_contain_every.
+(* non-vacuity: against file://h.x/tmp/d?q the references "", "?x", "#f", "/p", "\p", "e/f" and the drive-letter references
+   "C|/y", "/C:/x", "/C|" (the Standard keeps h.x in all three: file://h.x/C:/y, file://h.x/C:/x, file://h.x/C:); against
+   file:///C:/a/b "/p" (drive letter carried), "/D|/p" (not carried), "..", "../../.." (the drive letter is never
+   shortened away), "D|"; against https://u:p@h.x:8/a/b?q "/C:/x" and "\z": premise met, success, front kept, href shown *)
+Example C08_std_contain_every_inhabited :
+  std_every_case (B "file://h.x/tmp/d?q")
+    [(B "", B "file://h.x/tmp/d?q"); (B "?x", B "file://h.x/tmp/d?x"); (B "#f", B "file://h.x/tmp/d?q#f");
+     (B "/p", B "file://h.x/p"); (B "\p", B "file://h.x/p"); (B "e/f", B "file://h.x/tmp/e/f");
+     (B "C|/y", B "file://h.x/C:/y"); (B "/C:/x", B "file://h.x/C:/x"); (B "/C|", B "file://h.x/C:")] = true
+  /\ std_every_case (B "file:///C:/a/b") [(B "/p", B "file:///C:/p"); (B "/D|/p", B "file:///D:/p"); (B "..", B "file:///C:/");
+       (B "../../..", B "file:///C:/"); (B "D|", B "file:///D:")] = true
+  /\ std_every_case (B "https://u:p@h.x:8/a/b?q") [(B "/C:/x", B "https://u:p@h.x:8/C:/x"); (B "\z", B "https://u:p@h.x:8/z")] = true.
+Proof. exact std_contain_every_inhabited. Qed.
